@@ -141,14 +141,45 @@ def surface_helper(pkg) -> str:
     for cls in ("HH93Grain", "Grain"):
         if cls not in pkg.classes:
             continue
-        fn = pkg.classes[cls].methods.get("rate_surface_twobody")
-        if fn is None:
+        meths = pkg.classes[cls].methods
+
+        def reach(m, seen=None):
+            # private methods of the class reached from method m through self.<_name>(..), in call order, helpers of helpers included
+            seen = [] if seen is None else seen
+            for c in _ast.walk(meths[m]) if m in meths else ():
+                if isinstance(c, _ast.Call) and isinstance(c.func, _ast.Attribute) and isinstance(c.func.value, _ast.Name) and c.func.value.id == "self" \
+                        and c.func.attr.startswith("_") and not c.func.attr.startswith("__") and c.func.attr in meths and c.func.attr not in seen:
+                    seen.append(c.func.attr)
+                    reach(c.func.attr, seen)
+            return seen
+        a = reach("rate_surface_twobody")
+        if not a:
             continue
-        for c in _ast.walk(fn):
-            if isinstance(c, _ast.Call) and isinstance(c.func, _ast.Attribute) and isinstance(c.func.value, _ast.Name) and c.func.value.id == "self" \
-                    and c.func.attr.startswith("_") and not c.func.attr.startswith("__") and c.func.attr in pkg.classes[cls].methods:
-                return c.func.attr
+        # the helper the two surface processes SHARE (the outermost such: not itself reached from another shared one), whatever
+        # other private helpers either of them was split into
+        b = reach("rate_reactive_desorption")
+        shared = [x for x in a if x in b]
+        for x in shared:
+            if not any(x in reach(y) for y in shared if y != x):
+                return x
+        return a[0]
     return "_rate_surface"
+
+
+def beautifier(pkg) -> str:
+    """Name of the private Reaction method a rate text passes through on its way out of rateexpr (`rate = self.<name>(rate)`): a
+    text -> text method that does nothing but str.replace on its argument -- found by role so that renaming it is not an analysis failure."""
+    import ast as _ast
+    ci = pkg.classes.get("Reaction")
+    fn = ci.methods.get("rateexpr") if ci is not None else None
+    for c in _ast.walk(fn) if fn is not None else ():
+        if isinstance(c, _ast.Call) and isinstance(c.func, _ast.Attribute) and isinstance(c.func.value, _ast.Name) and c.func.value.id == "self" and len(c.args) == 1 \
+                and not c.keywords and c.func.attr.startswith("_") and not c.func.attr.startswith("__") and c.func.attr in ci.methods:
+            m = ci.methods[c.func.attr]
+            calls = [x for x in _ast.walk(m) if isinstance(x, _ast.Call)]
+            if len(m.args.args) == 2 and calls and all(isinstance(x.func, _ast.Attribute) and x.func.attr == "replace" for x in calls):
+                return c.func.attr
+    return "_beautify"
 
 
 _LITERAL_NODES = (ast.Constant, ast.Tuple, ast.List, ast.Set, ast.Dict, ast.Attribute, ast.Name, ast.UnaryOp, ast.USub, ast.UAdd, ast.Load)
@@ -527,7 +558,7 @@ class RateModel:
         fn0, fn = fn, self.specialised(cls, fn)
         key = (dc, meth) if fn is fn0 else (dc, meth, cls)
         if key not in self._flows:
-            no_inline = {"_beautify", "_create_species", surface_helper(self.pkg), "_parse_string", "register", "unregister"}
+            no_inline = {"_beautify", beautifier(self.pkg), "_create_species", surface_helper(self.pkg), "_parse_string", "register", "unregister"}
 
             def resolver(name, cls=cls):
                 if name in no_inline or not name.startswith("_") or name.startswith("__"):
@@ -577,14 +608,15 @@ class RateModel:
             if any(isinstance(x, tuple) and x and x[0] == "dict" for x in walk(v)):
                 v = simp(lookup_chains(v))
             beaut = False
-            if v[0] == "meth" and v[1] == SELF and v[2] == "_beautify" and len(v[3]) == 1:
+            BEAUT = ("_beautify", beautifier(self.pkg))
+            if v[0] == "meth" and v[1] == SELF and v[2] in BEAUT and len(v[3]) == 1:
                 beaut = True
                 v = v[3][0]
             for path, leaf in split_phi(v):
                 conds = base + tuple(_prim_cond(simp(c), p) for c, p in path)
                 # a value that passed through _beautify inside one arm only
                 b2 = beaut
-                if leaf[0] == "meth" and leaf[1] == SELF and leaf[2] == "_beautify" and len(leaf[3]) == 1:
+                if leaf[0] == "meth" and leaf[1] == SELF and leaf[2] in BEAUT and len(leaf[3]) == 1:
                     b2 = True
                     leaf = leaf[3][0]
                 if leaf == ("global", "NotImplemented"):
